@@ -23,4 +23,4 @@ INIT MCInit
 NEXT MCNext
 CHECK_DEADLOCK FALSE
 VIEW View
-INVARIANTS C11_OnlyRealRefusalsFail C11_TxReportsClass C11_RefusalFails C09_AllTerminal
+INVARIANTS C11_OnlyRealRefusalsFail C11_TxReportsClass C11_RefusalFails C09_AllTerminal Cover
